@@ -290,6 +290,34 @@ def kind_of(prog, qual, fn, node, line):
     raise Untranslatable(f"{prog} {qual}: a printed line carries the unexpected field set {fs}")
 
 
+IN_ORDER_ITERS = {("atom", "molecule.atoms"), ("atom", "calc.molecule.atoms"), ("atom", "atoms"),
+                  ("(i, atom)", "enumerate(atoms)")}
+
+
+def loop_of(fn, node, where):
+    """The `for` statement enclosing the coordinate print site `node`, classified."""
+    loops = [n for n in ast.walk(fn) if isinstance(n, ast.For) and any(sub is node for st in n.body for sub in ast.walk(st))]
+    if len(loops) != 1:
+        raise Untranslatable(f"{where}: coordinate line is inside {len(loops)} for-loops (exactly one expected)")
+    lp = loops[0]
+    if lp.orelse:
+        raise Untranslatable(f"{where}: for-else around the coordinate line")
+    key = (ast.unparse(lp.target), ast.unparse(lp.iter))
+    it = "IterInOrder" if key in IN_ORDER_ITERS else f"(IterOther {coq_str('for ' + key[0] + ' in ' + key[1])})"
+    binds = [st for st in lp.body if isinstance(st, ast.Assign) and
+             any(set(ids_in(t)) & {"x", "y", "z"} for t in st.targets)]
+    if len(binds) == 1 and ast.unparse(binds[0]) == "x, y, z = atom.coord":
+        bd = "BindXYZ"
+    else:
+        bd = f"(BindOther {coq_str('; '.join(ast.unparse(b) for b in binds))})"
+    # x, y, z must not be rebound anywhere else in the loop (augmented assignment, walrus, nested targets)
+    for sub in ast.walk(lp):
+        if isinstance(sub, (ast.AugAssign, ast.NamedExpr)) and set(ids_in(sub.target)) & {"x", "y", "z", "atom"}:
+            bd = f"(BindOther {coq_str(ast.unparse(sub))})"
+    total = not any(isinstance(sub, (ast.Continue, ast.Break, ast.Return)) for st in lp.body for sub in ast.walk(st))
+    return f"mkLoop {it} {bd} {'true' if total else 'false'}"
+
+
 def coq_str(s):
     if any(ord(c) < 32 or ord(c) > 126 for c in s):
         raise Untranslatable(f"non-printable / non-ASCII literal {s!r}")
@@ -364,7 +392,7 @@ def check_atom_validation(tree):
 
 
 def main():
-    cache, rows, sha = {}, [], hashlib.sha256()
+    cache, rows, loops, sha = {}, [], [], hashlib.sha256()
     for prog, rel, qual, names, expected in SITES:
         if rel not in cache:
             src = open(os.path.join(REPO, rel)).read()
@@ -377,6 +405,8 @@ def main():
         for node, line in templates_in(fn, names, where):
             k = kind_of(prog, qual, fn, node, line)
             found.append((k, line, node.lineno))
+            if k == "LCoord":
+                loops.append((prog, loop_of(fn, node, where), f"{rel}:{node.lineno}"))
         if sorted(k for k, _, _ in found) != sorted(expected):
             raise Untranslatable(f"{where}: printed line kinds {sorted(k for k, _, _ in found)} != expected {sorted(expected)}")
         for k, line, lineno in found:
@@ -390,6 +420,7 @@ def main():
     check_g16(open(os.path.join(REPO, "autode/wrappers/G16.py")).read())
     # Gaussian 16 inherits every print site of Gaussian 09
     rows += [("G16", k, line, w + " (inherited by G16)") for p, k, line, w in rows if p == "G09"]
+    loops += [("G16", l, w + " (inherited by G16)") for p, l, w in loops if p == "G09"]
 
     L = ["(* GENERATED by /verif/tr/translate_c17.py from the print sites of autode/wrappers/*.py,",
          f"   autode/input_output.py, autode/species/species.py — do not edit.  source sha256 = {sha.hexdigest()} *)",
@@ -404,6 +435,9 @@ def main():
     for prog, k, line, w in rows:
         body.append(f"  (* {w} *)\n  ({prog}, {k}, [" + "; ".join(coq_item(it) for it in line) + "])")
     L.append(";\n".join(body) + "\n].\n")
+    L.append("(* the for-statement around each coordinate print site and the binding of x, y, z *)")
+    L.append("Definition coord_loops : list (program * loop) := [")
+    L.append(";\n".join(f"  (* {w} *)\n  ({p}, {l})" for p, l, w in loops) + "\n].\n")
     L.append("Definition spec_table : list (program * field * spec) := [")
     srows = []
     for prog, k, line, w in rows:
@@ -421,7 +455,7 @@ def main():
         with open(_tmp, "w") as f:
             f.write(txt)
         os.replace(_tmp, OUT)  # atomic: a concurrent coqc never sees a partial file
-    return {"lines": len(rows), "specs": len(srows), "max_label_len": mll, "xtb_cart_offset": xoff,
+    return {"lines": len(rows), "loops": len(loops), "specs": len(srows), "max_label_len": mll, "xtb_cart_offset": xoff,
             "sha256": sha.hexdigest()[:16]}
 
 
